@@ -396,9 +396,9 @@ NextOps ==
     \/ On("SetStatus") /\ \E t \in DOMAIN tasks, s \in StatusVals \ {"Wait"} : SetStatus(t, s) /\ last' = Op("SetStatus")
     \/ On("SetToWait") /\ \E t \in DOMAIN tasks, s \in StatusVals \ {"Wait"} : SetToWait(t, s) /\ last' = Op("SetToWait")
     \/ On("ChangeSetStatus") /\ \E c \in DOMAIN changes, s \in StatusVals \cup {"Default"} : ChangeSetStatus(c, s) /\ last' = Op("ChangeSetStatus")
-    \/ On("Data") /\ \E t \in DOMAIN tasks, k \in Keys, v \in Vals : TaskSet(t, k, v) /\ last' = Op("TaskSet")
-    \/ On("Data") /\ \E c \in DOMAIN changes, k \in Keys, v \in Vals : ChangeSet(c, k, v) /\ last' = Op("ChangeSet")
-    \/ On("Data") /\ \E k \in Keys, v \in Vals : StateSet(k, v) /\ last' = Op("StateSet")
+    \/ On("TaskData") /\ \E t \in DOMAIN tasks, k \in Keys, v \in Vals : TaskSet(t, k, v) /\ last' = Op("TaskSet")
+    \/ On("ChangeData") /\ \E c \in DOMAIN changes, k \in Keys, v \in Vals : ChangeSet(c, k, v) /\ last' = Op("ChangeSet")
+    \/ On("StateData") /\ \E k \in Keys, v \in Vals : StateSet(k, v) /\ last' = Op("StateSet")
     \/ On("Log") /\ \E t \in DOMAIN tasks : Len(tasks[t].log) < 11 /\ Log(t, "INFO", "m") /\ last' = Op("Log")
     \/ On("At") /\ \E t \in DOMAIN tasks, w \in {0, Now} : At(t, w) /\ last' = Op("At")
     \/ On("Clean") /\ \E t \in DOMAIN tasks : SetClean(t) /\ last' = Op("SetClean")
